@@ -50,16 +50,17 @@ def _jsonable(x):
 class Case:
     """one generated tree + state; collects violations with full replay information"""
 
-    def __init__(self, run, case_seed, kind):
+    def __init__(self, run, case_seed, kind, icase=0):
         self.run = run
         self.case_seed = case_seed
         self.kind = kind
+        self.icase = icase
         self.info = {}
         self.n_checks = 0
         self.ops_done = set()
 
     def replay(self, **kw):
-        obj = dict(module="search_c11", generator=self.kind, case_seed=self.case_seed)
+        obj = dict(module="search_c11", generator=self.kind, case_seed=self.case_seed, icase=self.icase)
         obj.update(self.info)
         obj.update(kw)
         return _jsonable(obj)
@@ -202,7 +203,7 @@ def _case_tree(run, rng, quick, case_seed, icase):
     from renormalizer.model import Op, OpSum
     from renormalizer.utils import CompressConfig, CompressCriteria
 
-    case = Case(run, case_seed, "tree")
+    case = Case(run, case_seed, "tree", icase)
     qn_mode = L.QN_MODES[icase % 3]
     ctx = _make_ctx(rng, quick, qn_mode, 6 if quick else 7)
     cplx = bool(rng.random() < 0.4)
@@ -331,9 +332,18 @@ def _case_tree(run, rng, quick, case_seed, icase):
     # ---- norm (two-component QNs hit the dummy-basis defect)
     _norm_check(case, ctx, a, psi, "ttns_norm")
 
+    # ---- flat parameter vector <-> tensors (used by the time-evolution code): only the entries
+    #      allowed by the quantum numbers are stored, node by node
+    def flat_roundtrip():
+        vec = np.concatenate([np.asarray(nd.tensor)[a.get_qnmask(nd)].ravel() for nd in a.node_list])
+        return TTNS.from_tensors(a, vec)
+    ok, ft = case.call("from_tensors", cls, flat_roundtrip)
+    if ok:
+        _dense_checks(case, "from_tensors", ctx, ft, psi, rng, TOL_RING)
+
     # ---- operators: full TTNO
     tq = None
-    if qn_mode != "none" and rng.random() < 0.4:
+    if qn_mode != "none" and rng.random() < 0.5:
         # a charged operator: pick the charge of a random single piece
         for _ in range(10):
             b = ctx["phys"][int(rng.integers(len(ctx["phys"])))]
@@ -424,7 +434,9 @@ def _norm_check(case, ctx, a, psi, op):
     if not ok:
         return
     case.close(op, _cls(ctx), np.array([got]), np.array([ref]), TOL_FACT)
-    case.close("norm", _cls(ctx), np.array([a.norm]), np.array([ref * abs(a.coeff)]), TOL_FACT)
+    b = a.copy()
+    b.coeff = 0.6 - 0.8j * 1.5
+    case.close("norm", _cls(ctx), np.array([b.norm]), np.array([ref * abs(b.coeff)]), TOL_FACT)
 
 
 def _expect_check(case, ctx, op, a, ttno, ref, oscale, cls=None, **kw):
@@ -690,7 +702,7 @@ def _walk_checks(case, run, rng, ctx, a, psi):
 def _case_library_states(run, rng, quick, case_seed, icase):
     """states made by the library itself: Hartree products (condition dict) and TTNS.random"""
     from renormalizer.tn.tree import TTNS
-    case = Case(run, case_seed, "library-states")
+    case = Case(run, case_seed, "library-states", icase)
     qn_mode = L.QN_MODES[icase % 3]
     ctx = _make_ctx(rng, quick, qn_mode, 5)
     descs, spec, bl, tree = ctx["descs"], ctx["spec"], ctx["bl"], ctx["tree"]
@@ -777,7 +789,7 @@ def _case_from_mps(run, rng, quick, case_seed, icase):
     """chain state -> tree state"""
     from renormalizer import Model, Mps, Mpo
     from renormalizer.tn.tree import from_mps
-    case = Case(run, case_seed, "from_mps")
+    case = Case(run, case_seed, "from_mps", icase)
     qn_mode = L.QN_MODES[icase % 3]
     n = int(rng.integers(1, 6))
     descs = L.random_basis_descs(rng, n, qn_mode)
@@ -878,7 +890,7 @@ def _case_from_mps(run, rng, quick, case_seed, icase):
 def _case_history(run, rng, quick, case_seed, icase):
     """random operation sequences on one tree, dense vector tracked alongside"""
     from renormalizer.tn.tree import TTNO
-    case = Case(run, case_seed, "history")
+    case = Case(run, case_seed, "history", icase)
     qn_mode = L.QN_MODES[icase % 3]
     ctx = _make_ctx(rng, quick, qn_mode, 5)
     cplx = bool(rng.random() < 0.3)
@@ -963,6 +975,17 @@ def _case_history(run, rng, quick, case_seed, icase):
 
 
 # ---------------------------------------------------------------------------------------------
+GENERATORS = {}
+
+
+def replay(run, obj, quick=True):
+    """re-run the case of a replay object (fields generator, case_seed, icase) against the current tree;
+    violations are recorded in `run` exactly as in `search`"""
+    fn = GENERATORS[obj["generator"]]
+    seed = int(obj["case_seed"])
+    return fn(run, np.random.default_rng(seed), quick, seed, int(obj.get("icase", 0)))
+
+
 def search(run, rng, quick):
     t0 = time.time()
     budget = 50.0 if quick else 540.0
@@ -1001,3 +1024,7 @@ def search(run, rng, quick):
                        "distinct by its seed and non-trivial when at least 3 oracle comparisons ran on it "
                        "(state non-zero, tree built)")
     run.cov["budget_stop"] = stopped
+
+
+GENERATORS.update({"tree": _case_tree, "library-states": _case_library_states, "from_mps": _case_from_mps,
+                   "history": _case_history})
